@@ -329,5 +329,28 @@ Section Proofs.
       rewrite Hp' in Q1. inversion Q1; subst q.
       eapply finishes_done_eq; eassumption.
     Qed.
+    (* memo cells only ever grow: once filled, a memo cell keeps its value under
+       every schedule (every write to it writes its memo value: wr_ok) *)
+    Lemma memo_step_keeps j p s l mv :
+      Inv j p -> memo l = Some mv -> s l = mv -> snd (step1 p s) l = mv.
+    Proof.
+      intros I M E. pose proof (Hfp j p I) as H. unfold Interleave.step1.
+      destruct (next p) as [l' k|l' v p'|l' f k|p'|r0]; cbn [snd]; try exact E.
+      - destruct H as [_ [W _]]. destruct (loc_dec l l') as [<-|N].
+        + rewrite upd_same. unfold Interleave.wr_ok in W. rewrite M in W. exact W.
+        + rewrite upd_other by exact N. exact E.
+      - destruct H as [_ [_ [Mn _]]]. destruct (loc_dec l l') as [<-|N]; [congruence|].
+        rewrite upd_other by exact N. exact E.
+    Qed.
+
+    Lemma memo_cells_monotone_l sched :
+      forall c, good c -> forall l mv, memo l = Some mv -> fst c l = mv ->
+      fst (exec sched c) l = mv.
+    Proof.
+      induction sched as [|j rest IH]; intros c G l mv M E; cbn; [exact E|].
+      apply (IH (stepi j c) (stepi_good j c G) l mv M).
+      unfold Interleave.stepi. destruct (nth_error (snd c) j) as [p|] eqn:Ej; [|exact E].
+      cbn [fst]. apply (memo_step_keeps j); [apply G; exact Ej|exact M|exact E].
+    Qed.
   End Threads.
 End Proofs.
